@@ -6,6 +6,8 @@ import Pi2.Tracker
 import Pi2.Deserialize
 import Pi2.Proof
 import Pi2.MM.Compressed
+import Pi2.MM.Translate
+import Pi2.MM.Slice
 import Pi2.Taut
 import Pi2.PrettyPat
 /-!
@@ -312,3 +314,91 @@ def clausesOfSexp : Sexp → Option (List (List Int))
 
 def clausesToStr (cs : List (List Int)) : String :=
   "(" ++ " ".intercalate (cs.map fun c => "(" ++ " ".intercalate (c.map toString) ++ ")") ++ ")"
+
+/-! ### Metamath databases (fragment F0) -/
+open Sexp in
+partial def mmTermOfSexp : Sexp → Option MM.Term
+  | .list [.atom "v", n] => do pure (.var (← nat? n))
+  | .list [.atom "imp", a, b] => do pure (.imp (← mmTermOfSexp a) (← mmTermOfSexp b))
+  | .list [.atom "app", a, b] => do pure (.app (← mmTermOfSexp a) (← mmTermOfSexp b))
+  | .list (.atom "con" :: c :: xs) => do pure (.con (← nat? c) (← xs.mapM mmTermOfSexp))
+  | _ => none
+
+open Sexp in
+def mmDbOfSexp : Sexp → Option MM.DB
+  | .list [.atom "db", fl, .list [.atom "imp", ix, iy], .list [.atom "app", ax, ay],
+           .list (.atom "ctors" :: cs), .list (.atom "rules" :: rs),
+           .list [.atom "p1", a, b], .list [.atom "p2", c, d, e], .list [.atom "mp", f, g]] => do
+      let ctors ← cs.mapM fun c => match c with
+        | .list [s, args] => do pure (⟨← nat? s, ← natList? args⟩ : MM.Ctor)
+        | _ => none
+      let rules ← rs.mapM fun r => match r with
+        | .list [.list hs, t] => do pure (⟨← hs.mapM mmTermOfSexp, ← mmTermOfSexp t⟩ : MM.Rule)
+        | _ => none
+      pure { floats := ← natList? fl, impArgs := (← nat? ix, ← nat? iy), appArgs := (← nat? ax, ← nat? ay),
+             ctors := ctors, rules := rules, p1 := (← nat? a, ← nat? b), p2 := (← nat? c, ← nat? d, ← nat? e),
+             mp := (← nat? f, ← nat? g) }
+  | _ => none
+
+open Sexp in
+def mmLblOfSexp : Sexp → Option MM.Lbl
+  | .list [.atom "f", v] => do pure (.float (← nat? v))
+  | .atom "imp" => some .impC | .atom "app" => some .appC
+  | .list [.atom "ctor", i] => do pure (.ctor (← nat? i))
+  | .list [.atom "rule", i] => do pure (.rule (← nat? i))
+  | .atom "p1" => some .p1 | .atom "p2" => some .p2 | .atom "mp" => some .mp
+  | _ => none
+
+/-! ### Metamath ASTs (strings travel as `h<hex of the UTF-8 bytes>`) -/
+def strOfHexAtom : Sexp → Option String
+  | .atom a =>
+    if a.startsWith "h" then do
+      let bs ← bytesOfHex (if a.length = 1 then "-" else (a.drop 1).toString)
+      String.fromUTF8? (ByteArray.mk (bs.map (·.toUInt8)).toArray)
+    else none
+  | _ => none
+
+def hexAtomOfStr (s : String) : String :=
+  if s.isEmpty then "h" else "h" ++ hexOfBytes (s.toUTF8.toList.map (·.toNat))
+
+def strsOfSexp : Sexp → Option (List String)
+  | .list xs => xs.mapM strOfHexAtom
+  | _ => none
+
+def strsToStr (xs : List String) : String := "(" ++ " ".intercalate (xs.map hexAtomOfStr) ++ ")"
+
+partial def mtermOfSexp : Sexp → Option MM.MTerm
+  | .list [.atom "mv", n] => do pure (.mv (← strOfHexAtom n))
+  | .list (.atom "app" :: s :: args) => do pure (.app (← strOfHexAtom s) (← args.mapM mtermOfSexp))
+  | _ => none
+
+partial def mtermToStr : MM.MTerm → String
+  | .mv n => s!"(mv {hexAtomOfStr n})"
+  | .app s args => "(app " ++ " ".intercalate (hexAtomOfStr s :: args.map mtermToStr) ++ ")"
+
+partial def mstmtOfSexp : Sexp → Option MM.MStmt
+  | .list [.atom "c", cs] => do pure (.const (← strsOfSexp cs))
+  | .list [.atom "v", vs] => do pure (.var (← strsOfSexp vs))
+  | .list [.atom "d", vs] => do pure (.disj (← strsOfSexp vs))
+  | .list [.atom "f", l, tc, v] => do pure (.float (← strOfHexAtom l) (← strOfHexAtom tc) (← strOfHexAtom v))
+  | .list [.atom "e", l, .list ts] => do pure (.ess (← strOfHexAtom l) (← ts.mapM mtermOfSexp))
+  | .list [.atom "a", l, .list ts] => do pure (.ax (← strOfHexAtom l) (← ts.mapM mtermOfSexp))
+  | .list [.atom "p", l, .list ts, pf] => do pure (.prov (← strOfHexAtom l) (← ts.mapM mtermOfSexp) (← strsOfSexp pf))
+  | .list (.atom "block" :: ss) => do pure (.block (← ss.mapM mstmtOfSexp))
+  | _ => none
+
+partial def mstmtToStr : MM.MStmt → String
+  | .const cs => s!"(c {strsToStr cs})"
+  | .var vs => s!"(v {strsToStr vs})"
+  | .disj vs => s!"(d {strsToStr vs})"
+  | .float l tc v => s!"(f {hexAtomOfStr l} {hexAtomOfStr tc} {hexAtomOfStr v})"
+  | .ess l ts => s!"(e {hexAtomOfStr l} ({" ".intercalate (ts.map mtermToStr)}))"
+  | .ax l ts => s!"(a {hexAtomOfStr l} ({" ".intercalate (ts.map mtermToStr)}))"
+  | .prov l ts pf => s!"(p {hexAtomOfStr l} ({" ".intercalate (ts.map mtermToStr)}) {strsToStr pf})"
+  | .block ss => "(" ++ " ".intercalate ("block" :: ss.map mstmtToStr) ++ ")"
+
+def mdbOfSexp : Sexp → Option MM.MDb
+  | .list (.atom "mdb" :: ss) => ss.mapM mstmtOfSexp
+  | _ => none
+
+def mdbToStr (db : MM.MDb) : String := "(" ++ " ".intercalate ("mdb" :: db.map mstmtToStr) ++ ")"
